@@ -48,9 +48,10 @@ STRATA = [
     ("pr", 160, 1500),
     ("scc-topo", 220, 2600),
     ("shapes", 40, 400),
+    ("scale", 6, 40),
     ("exh", 7, 14),
 ]
-BATCH = {"exh": 1}
+BATCH = {"exh": 1, "scale": 1}
 
 FUNCS = {
     # public name -> (short, module, rust kernel)
@@ -256,6 +257,37 @@ def _gen(stratum, rng, tier, auto):
             jobs.append(("bfs_edges", dict(kw)))
             jobs.append(("dfs_edges", dict(kw)))
         return _case("trav", n, [(u, v, 1) for u, v in pairs], src, jobs, False, auto)
+    if stratum == "scale":
+        # thousands of nodes under the default recursion limit: a path taken in ascending weight order (components that
+        # grow one node at a time) plus heavy chords for kruskal; a long corridor with dearer shortcuts for the path
+        # reconstruction of the traversal / shortest-path functions.  Both back-ends have to return, and agree.
+        n = rng.randint(1500, 3500)
+        order = list(range(n))
+        if rng.random() < 0.5:
+            rng.shuffle(order)
+        if rng.random() < 0.5:
+            k = n - 1 - rng.choice([1, 1, 3, 0])  # mostly one or more nodes short: the heavy edges below are needed
+            edges = [(order[i], order[i + 1], i + 1) if rng.random() < 0.8 else (order[i + 1], order[i], i + 1) for i in range(k)]
+            top = n + 5
+            edges.append((order[0], order[n - 1], top))
+            for _ in range(rng.randint(2, 10)):
+                a, b = rng.sample(range(n), 2)
+                top += 1
+                edges.append((order[a], order[b], top))
+            if rng.random() < 0.5:
+                rng.shuffle(edges)
+            return _case("mst", n, edges, 0, [("kruskal", {}), ("kruskal", {"allow_forest": True})], False, auto)
+        edges = [(order[i], order[i + 1], 1) for i in range(n - 1)]
+        for _ in range(rng.randint(0, 6)):
+            i = rng.randrange(n - 60)
+            j = i + rng.randint(5, 50)
+            edges.append((order[i], order[j], (j - i) + rng.randint(1, 3)))  # dearer than walking the corridor
+        t = order[n - 1 - rng.choice([0, 0, 1, 7])]
+        if rng.random() < 0.5:
+            jobs = [("dijkstra_edges", {"target": t}), ("bellman_ford", {"target": t})]
+            return _case("dij", n, edges, order[0], jobs, False, auto)
+        jobs = [("bfs_edges", {"target": t}), ("dfs_edges", {"target": t})]
+        return _case("trav", n, [(u, v, 1) for u, v, _ in edges[: n - 1]], order[0], jobs, False, auto)
     if stratum == "mst" and rng.random() < 0.35:
         # merge plan: distinct increasing weights dictate which components meet when (equal sizes preferred: maximal
         # union-find ranks); the joining edge touches arbitrary members in either orientation, heavier cycle-closing
